@@ -20,7 +20,8 @@ RULE = ("workload = 1-2 seeded array objects (Waves / Images / DiffractionPatter
         "ReciprocalSpaceLineProfiles / MeasurementsEnsemble / PotentialArray; 0-3 ensemble axes of every axis kind; float32/64, complex64/128, "
         "int32; metadata with tuples, nested dicts, numpy scalars, None) x {directory, zip} x {eager, lazy computed by SimScheduler, "
         "compute=False then compute} x overwrite of an existing target x compression level. Fault-free: reloaded object equal in "
-        "type, values (bitwise), dtype, axes metadata and metadata. Fault sweep: every store operation the write and the read "
+        "type, values (bitwise), dtype, axes metadata and metadata; in half of the workloads the same url is then overwritten with other "
+        "objects, read, overwritten with the first ones and read again (stale state of an earlier open must not leak). Fault sweep: every store operation the write and the read "
         "perform x every applicable reported fault (ENOSPC / EIO before a write, torn write, EIO on read / delete / close / open / "
         "os.remove / rmtree), one fault per execution, complete per workload (capped at 60 points, then sampled); oracle: the call "
         "raised OR the read-back is exact -- never silent wrong data; after the fault is cleared a retry with overwrite=True "
@@ -186,7 +187,9 @@ def draw_workload(ch):
     return {"objects": [draw_object(ch) for _ in range(n)], "store": ch.pick(["dir", "zip"], "store"),
             "compute_later": ch.bool(0.25, "compute-later"), "preexisting": ch.bool(0.3, "preexisting"),
             "compression": ch.pick([4, None, 0, 9], "compression"), "read_chunks": ch.pick(["default", "auto", "stored"], "read-chunks"),
-            "mode": ch.pick(["sweep", "sweep", "roundtrip"], "mode")}
+            "mode": ch.pick(["sweep", "sweep", "roundtrip"], "mode"),
+            # save A, load A, save B over it (overwrite=True), load: B must come back (and A again after saving A over B)
+            "overwrite_history": [draw_object(ch) for _ in range(ch.pick([1, 1, 2], "n-objects-2"))] if ch.bool(0.5, "overwrite-history") else None}
 
 
 # ------------------------------------------------------------------------------------------------ operations -----
@@ -327,6 +330,23 @@ def run_one(run):
                 run.violate("roundtrip", sigw(wl, aspect, "fault-free"), msg)
             run.note("executions")
             run.note("store_ops_seen", len(wlog) + len(rlog))
+            if not bad and wl["overwrite_history"]:
+                wl2 = {**wl, "objects": wl["overwrite_history"]}
+                for step, w in (("overwrite", wl2), ("overwrite-back", wl)):
+                    sf.reset()
+                    try:
+                        do_write(w, url, mk_sim(), overwrite=True)
+                        bad = compare(w, do_read(w, url, mk_sim()))
+                    except (HarnessError, InjectedCrash):
+                        raise
+                    except Exception as e:  # noqa: BLE001
+                        bad = [("raise", f"{type(e).__name__}: {e} at {tb(e)}")]
+                    run.note("executions")
+                    run.note("reach_overwrite_history")
+                    for aspect, msg in bad:
+                        run.violate("roundtrip", sigw(w, aspect, step), f"url written, read, overwritten with other objects and read again ({step}): {msg}")
+                    if bad:
+                        break
             if bad or wl["mode"] == "roundtrip":
                 run.nontrivial = True
                 return
